@@ -9,11 +9,12 @@ SPEC = {
     "id": "C17",
     "harness": "c17",
     "n": {"quick": 800, "thorough": 20000},
-    "coq_modules": ["Server.Model", "Server.Spec", "Server.Witness", "Server.Release", "Server.Queries", "Server.Check"],
+    "coq_modules": ["Server.Model", "Server.Spec", "Server.Witness", "Server.Release", "Server.Queries", "Server.Iface", "Server.Check"],
     "search": {"n": 2000, "timeout": 600},
-    "components": {"1": "an observed event is not an enabled step of the model", "2": "`Previous` given to a computation differs from the model's",
+    "components": {"1": "an observed event is not an enabled step of the model", "2": "`Previous` or `initial` (as told to StartExecution / the middlewares) of a computation differs from the model's",
                    "3": "socket envelopes differ", "4": "SubscriptionLogger calls differ", "5": "merge.ts client state differs from the model's fold",
-                   "6": "subscriptions left in the map at the end differ", "7": "resources released (Cleanup calls) differ", "8": "a computation executed a query (text, variables) other than its subscription's"},
+                   "6": "subscriptions left in the map at the end differ", "7": "resources released (Cleanup calls) differ", "8": "a computation executed a query (text, variables) other than its subscription's",
+                   "9": "what reactive/rerunner.go reported for a rerunner (publish / failed / retry / stop.mark with their flags) differs from what the history implies (Server/Iface.v)"},
     "corr_name": "Server.Model (step / replay) vs graphql/server.go under a fake JSONSocket: every recorded history must be accepted by the model, which must predict envelopes, logger calls and client states",
     "trusted_base": _TRUSTED,
     "assumptions": [
